@@ -355,10 +355,12 @@ def replay_tree(tree, plan, procs):
     return mism, calls, nh, hist
 
 
-def plan_exhaustive(tree):
+def plan_exhaustive(tree, every=1):
+    """every > 1: only every n-th maximal history is replayed (reported as a sample in the evidence)"""
     plan = []
     for i, leaf in enumerate(tree.leaves):
-        plan.append((leaf, i % NVARIANTS, "global" if (i // NVARIANTS) % 2 == 0 else "local", True))
+        if i % every == 0:
+            plan.append((leaf, (i // every) % NVARIANTS, "global" if (i // every // NVARIANTS) % 2 == 0 else "local", True))
     return plan
 
 
@@ -478,7 +480,7 @@ def report(chk, mism, direction="spec->code"):
 # the check
 # ------------------------------------------------------------------------------------------------
 MC_QUICK = ["HD", "HK", "HV", "CD3"]
-MC_THOROUGH = ["HD", "HK", "HV", "HT", "CD3", "CV", "CK", "CT"]
+MC_THOROUGH = ["HD", "HK", "HV", "HT", "CD3", "CD", "CV", "CK"]
 NEG_QUICK = {"NegOrder": "SearchSound", "NegClassAnc": "HierRefines", "NegNoRemove": "CacheInvisible",
              "NegNoHierCheck": "CacheInvisible"}
 NEG_THOROUGH = dict(NEG_QUICK, NegNoAdd="CacheInvisible", NegNoRemoveAll="CacheInvisible")
@@ -518,13 +520,14 @@ def run(chk):
     neg = NEG_QUICK if quick else NEG_THOROUGH
     for c in neg:
         jobs[c] = dict(module="MultiFn_MC", cfg="MultiFn_%s.cfg" % c, workers=2)
-    gens = [("D", "MultiFn_GenD4.cfg")] if quick else [("T", "MultiFn_GenT4.cfg"), ("D", "MultiFn_GenD5.cfg")]
-    for u, cfg in gens:
+    # (universe, cfg, replay every n-th maximal history)
+    gens = [("D", "MultiFn_GenD4.cfg", 1)] if quick else [("T", "MultiFn_GenT4.cfg", 1), ("D", "MultiFn_GenD5.cfg", 4)]
+    for u, cfg, _ in gens:
         jobs["gen" + cfg] = dict(module="MultiFn_Gen", cfg=cfg, workers=4, timeout=3000)
-    nsim = int(os.environ.get("VERIF_C18_SIM") or (120 if quick else 1200))
+    nsim = int(os.environ.get("VERIF_C18_SIM") or (120 if quick else 600))
     jobs["sim"] = dict(module="MultiFn_Gen", cfg="MultiFn_GenB.cfg", workers=4, simulate=(nsim + 3) // 4, depth=81,
                        seed=chk.seed + 1, timeout=3000)
-    res = _tlc_jobs(chk, jobs, par=4 if quick else 5)
+    res = _tlc_jobs(chk, jobs, par=max(1, min(4 if quick else 5, procs // 4)))
     for name, r in res.items():
         if isinstance(r, Exception):
             chk.machinery("%s: %s" % (name, str(r)[:600]))
@@ -542,16 +545,18 @@ def run(chk):
         return
     allm = []
     trees = []
-    for u, cfg in gens:
+    for u, cfg, every in gens:
         r = res["gen" + cfg]
         if r.violated or not r.ok:
             chk.machinery("%s: %s" % (cfg, r.violated or r.out[-300:]))
             return
         t = Tree(u, r.tagged("NODE"))
-        trees.append((u, cfg, t, plan_exhaustive(t)))
+        trees.append((u, cfg, t, plan_exhaustive(t, every)))
+        if every > 1:
+            chk.exhaustive = False
     r = res["sim"]
     tsim = Tree("B", r.tagged("NODE"))
-    trees.append(("B", "simulate", tsim, plan_random(tsim, 3 if quick else 5)))
+    trees.append(("B", "simulate", tsim, plan_random(tsim, 3 if quick else 4)))
     for u, cfg, t, plan in trees:
         mism, calls, nh, hist = replay_tree(t, plan, procs)
         chk.count(calls + nh, traces=hist)
@@ -575,7 +580,7 @@ def run(chk):
         outs = {}
 
         def child(seed):
-            outs[seed] = repo.run_child([os.path.abspath(__file__), "--child", path, "2", str(max(2, procs // 2))],
+            outs[seed] = repo.run_child([os.path.abspath(__file__), "--child", path, "1", str(max(2, procs // 2))],
                                         hashseed=str(seed), timeout=3000)
         ths = [threading.Thread(target=child, args=(s,)) for s in seeds]
         for pair in (ths[:2], ths[2:]):
@@ -595,9 +600,10 @@ def run(chk):
             allm.extend(body["mism"])
             chk.count(body["calls"], traces=body["hist"])
             chk.extra["hashseed:%d" % s] = {"replays": body["hist"], "calls": body["calls"]}
+    if chk.exhaustive is None:
+        chk.exhaustive = True
     classify(chk, allm)
     report(chk, allm)
-    chk.exhaustive = True
 
 
 def child_main(argv):
